@@ -21,7 +21,7 @@ var (
 	addrSubs       = []string{"", "", "mod", "a/b", "modules/vpc", "a/b/c/d", "x.tf", "v1.0"}
 	addrSubsOdd    = []string{"módulo", "a.b", "-x", "_", "a@b", "a b", "a#b", "a%20b", "a%b", "a+b", "a&b=c", "a:b", "x@1.0.0", "a;b", "A/B", "a~", "a=b", "...", "a/...", ".a", "a/.b/..c"}
 	addrRefs       = []string{"main", "v1.2.3", "feature%2Fx", "a+b", "", "abc123def", "refs%2Fheads%2Fmain", "x%20y", "ü", "a%26b"}
-	addrRegHosts   = []string{"", "", "example.com/", "registry.terraform.io/", "app.terraform.io/", "terraform.example.com:8443/", "テラフォーム.example.com/", "EXAMPLE.com/", "example.com:443/", "gitlab.com/", "Bücher.example/"}
+	addrRegHosts   = []string{strings.Repeat("k", 64) + "テ.example.com/", strings.Repeat("a", 63) + ".example.com/", "", "", "example.com/", "registry.terraform.io/", "app.terraform.io/", "terraform.example.com:8443/", "テラフォーム.example.com/", "EXAMPLE.com/", "example.com:443/", "gitlab.com/", "Bücher.example/"}
 	addrRegNames   = []string{"hashicorp", "ns", "a", "A-b_c", "x0", "Name", "a_b", "0a"}
 	addrRegSystems = []string{"aws", "cidr", "azurerm", "x", "a1", "0"}
 	addrVersions   = []string{"1.99999999999999999999.0", "99999999999999999999.0.0", "1.0.18446744073709551616", "1.0.0", "0.0.0", "1.2.3-beta.1", "2.0.0-rc.1+build.5", "10.20.30", "1.0.0+meta", "0.1.0-alpha", "1.0.0-0", "1.0.0-x.7.z.92"}
